@@ -5,6 +5,24 @@ HERE = os.path.dirname(os.path.dirname(os.path.abspath(__file__)))
 PROPS = [json.loads(l) for l in open(os.path.join(HERE, 'properties.jsonl'))]
 
 CLAIMED = {
+ 'C07': dict(
+   category='proof',
+   text='Spec function tax_y(status, x) (bracket schedules of Rev. Proc. 2020-45/2021-45/2022-38, IRS table row structure) against the real tables and the three real functions of each year: every table row is an IRS row with 4 statutory cells (ground, exact rationals, 23 k cells); the loop body of figure_tax_table is executed symbolically per row (returns float(row[col]) iff lo<=x<hi) and an invariant chain proves exactly one row matches every real x in [0,100000) so the trailing assert is unreachable; every path of figure_tax_worksheet equals the bracket formula for all real x in [100000,1e12] (z3, LRA); figure_tax maps each status to its schedule on the proper side of 100000 (QSS=MFJ); monotonicity/slope lemmas on the spec. All real amounts, not sampled dollars.',
+   design_ref='DESIGN 4 C07',
+   note='A-REAL (floats as reals; IEEE-754 evaluation only by the bounded native stand-in, labelled bounded), A-ORACLE (transcribed brackets), the loop contract applies to the shape for-row-if-return; a reshaped function is degraded to the bounded stand-in and reported undecided unless the stand-in finds a failing input.',
+   technique='VCs from the real AST: ground evaluation of table cells, per-row loop-body VCs with invariant chain, symbolic execution of the worksheet against a z3 spec function'),
+ 'C08': dict(
+   category='proof',
+   text='For every (year, status, statutory amount) in the site table the real line is executed symbolically: echo lines must return the published value on every return path for every status; deciding lines must compare the named amount with the published limit (condition atoms proved equivalent to amount <op> official by z3); multipliers must equal the published per-child amounts; 2023 threshold tables are compared member by member. Exhaustive over the finite triple space.',
+   design_ref='DESIGN 4 C08',
+   note='A-ORACLE: contracts/official.py transcribed from the Rev. Procs and form instructions; contracts/statutory_sites.py says where each amount shows. Sites not in the table (recovery rebate worksheet, NC child deduction table, Schedule B 1,500, educator cap) are not covered yet.',
+   technique='contract postconditions per statutory site discharged by symbolic execution + z3, ground comparison of threshold tables'),
+ 'C17': dict(
+   category='proof',
+   text='Ground obligations on the real classes, exhaustive over every (year, form class, allowed instance): instantiable, tax_year, unique name, metadata, sequence_no where needs_filing can be true, duplicate-free lower-case dot-free input and line names; for every status-keyed threshold table z3 proves exactly one key matches each member (first-match lookup makes overlapping keys dead) and the real Form.threshold returns that value; list_form_inputs output parses as an INI template naming exactly the declared inputs.',
+   design_ref='DESIGN 4 C17',
+   note='A-CFG for the template parse; numbered input forms instantiated for instances 0, 1, 7 as representatives.',
+   technique='class-invariant obligations by ground evaluation on the real objects + z3 over the finite status sort'),
  'C10': dict(
    category='proof',
    text='Every line function of every catalogued form (2021-2023, 2 422 lines incl. auto-generated mirrors) is extracted from the running objects and executed symbolically on all feasible paths with symbolic inputs/values; the obligation per line is that no path ends in an unresolved input/line/form/threshold/enum member/attribute/helper, assertion, KeyError or recursion. Path feasibility is decided by z3; every refuted obligation is replayed natively on the real Field.value. This covers all inputs and all syntactic paths, which no fixture set reaches.',
